@@ -366,6 +366,14 @@ def run(ctx, B):
         if not q.empty():
             ctx.cov["exhaustive"] = False
         for h in hs: h.close()
+    # 3b. no call of the complete C03 argument product writes to the library's static storage or tables (digest of the section-renamed build before and after
+    # every entry point's product, c16.table_immutability): the harnesses above decide races for the op alphabet; a static scratch variable, memo or lazily built
+    # table that only SOME argument tuple reaches is shared state between threads whatever the schedule, and is reported here with the tuple
+    import c16
+    for cfgx in ("A", "K"):
+        if not ctx.expired():
+            nprod = c16.table_immutability(ctx, B, cfgx, 1 << 40, 0)
+            ctx.notes.setdefault("static_storage_sweep_calls", {})[cfgx] = nprod
     # 4. free-running TSan pass
     texe = B.exe("tsanrun", [os.path.join(hdir, "tsanrun.c")], "tsan", "A")
     env = dict(os.environ, TSAN_OPTIONS="halt_on_error=0:report_signal_unsafe=0:exitcode=0")
